@@ -236,40 +236,57 @@ func c06Affinity(r *vres.Report, strat string, maxN int) {
 		Exhaustive: true, Sample: sample, Extra: map[string]interface{}{"wall_s": time.Since(start).Seconds()}})
 }
 
-// append history 1 -> maxN under ip_hash_consistent: each client keeps its backend or moves to the appended one
+// append history 1 -> maxN under ip_hash_consistent: each client keeps its backend or moves to the appended one.
+// Backend names and addresses are arbitrary labels: the history is run with names that sort in
+// append order, in reverse append order and in neither (a pool kept in any order other than
+// append order moves clients between old backends).
+var c06NameSchemes = map[string][]string{
+	"ascending":  {"b0", "b1", "b2", "b3", "b4", "b5", "b6", "b7"},
+	"descending": {"n7", "n6", "n5", "n4", "n3", "n2", "n1", "n0"},
+	"mixed":      {"web8", "web9", "web10", "web11", "api", "Web7", "zeta", "cache-1"},
+}
+
 func c06Append(r *vres.Report, maxN, clients int) {
 	start := time.Now()
 	var evals int64
 	moves := make([]int, maxN+1)
-	vh.RunSeq(r, "C06/sequential", func(s *vrt.Sched) {
-		k := newKit(s, kitOpts{Strategy: "ip_hash_consistent", N: 1})
-		prev := make([]int, clients)
-		addr := func(c int) string { return fmt.Sprintf("10.%d.%d.%d", c>>16&255, c>>8&255, c&255) }
-		for n := 1; n <= maxN; n++ {
-			if n > 1 {
-				name := fmt.Sprintf("b%d", n-1)
-				if err := k.lb.AddBackend(config.BackendConfig{Name: name, Address: "http://" + name + ".test:80"}); err != nil {
-					vh.ToolError("add: %v", err)
-				}
-				k.adopt(k.backendByName(name))
-			}
-			for c := 0; c < clients; c++ {
-				got, _ := servedIndex(k, addr(c*7+1))
-				evals++
-				if got < 0 || got >= n {
-					r.Violate("C06/ip_hash_consistent/append/choice-not-listed", fmt.Sprintf("pool of %d: client %s served by %d", n, addr(c*7+1), got), n, nil)
-				} else if n > 1 && got != prev[c] {
-					if got != n-1 {
-						r.Violate("C06/ip_hash_consistent/append/moved-to-an-old-backend", fmt.Sprintf("appending backend %d moved client %s from b%d to b%d", n-1, addr(c*7+1), prev[c], got), n, map[string]interface{}{"n": n, "client": addr(c*7 + 1)})
+	for _, scheme := range []string{"ascending", "descending", "mixed"} {
+		names := c06NameSchemes[scheme]
+		vh.RunSeq(r, "C06/sequential", func(s *vrt.Sched) {
+			cfg := kitConfig(kitOpts{Strategy: "ip_hash_consistent", N: 1})
+			cfg.Backends[0].Name = names[0]
+			cfg.Backends[0].Address = "http://" + strings.ToLower(names[0]) + ".test:80"
+			k := newKitCfg(s, cfg)
+			prev := make([]int, clients)
+			addr := func(c int) string { return fmt.Sprintf("10.%d.%d.%d", c>>16&255, c>>8&255, c&255) }
+			for n := 1; n <= maxN; n++ {
+				if n > 1 {
+					name := names[n-1]
+					if err := k.lb.AddBackend(config.BackendConfig{Name: name, Address: "http://" + strings.ToLower(name) + ".test:80"}); err != nil {
+						vh.ToolError("add: %v", err)
 					}
-					moves[n]++
+					k.adopt(k.backendByName(name))
 				}
-				prev[c] = got
+				for c := 0; c < clients; c++ {
+					got, _ := servedIndex(k, addr(c*7+1))
+					evals++
+					if got < 0 || got >= n {
+						r.Violate("C06/ip_hash_consistent/append/choice-not-listed", fmt.Sprintf("names %s, pool of %d: client %s served by %d", scheme, n, addr(c*7+1), got), n, nil)
+					} else if n > 1 && got != prev[c] {
+						if got != n-1 {
+							r.Violate("C06/ip_hash_consistent/append/moved-to-an-old-backend", fmt.Sprintf("names %s: appending backend %q (number %d) moved client %s from %q to %q", scheme, names[n-1], n-1, addr(c*7+1), names[prev[c]], names[got]), n, map[string]interface{}{"n": n, "client": addr(c*7 + 1), "names": scheme})
+						}
+						if scheme == "ascending" {
+							moves[n]++
+						}
+					}
+					prev[c] = got
+				}
 			}
-		}
-	})
-	r.AddScenario(vres.Scenario{Name: "consistent-append-history", Engine: "H", Executions: 1, States: int64(maxN), Transitions: evals, Outcomes: maxN,
-		Bound: fmt.Sprintf("append history 1->%d, %d enumerated client addresses re-asked after every append", maxN, clients), Exhaustive: true,
+		})
+	}
+	r.AddScenario(vres.Scenario{Name: "consistent-append-history", Engine: "H", Executions: 3, States: int64(3 * maxN), Transitions: evals, Outcomes: maxN,
+		Bound: fmt.Sprintf("append history 1->%d under three naming schemes (names sorting in append order, in reverse, in neither), %d enumerated client addresses re-asked after every append", maxN, clients), Exhaustive: true,
 		Sample: map[string]interface{}{"clients_moved_at_each_append": moves}, Extra: map[string]interface{}{"wall_s": time.Since(start).Seconds()}})
 }
 
